@@ -2,7 +2,19 @@
 STREAM = '/repo/src/common/stream.cc'
 OFFSETS = ['harness/offsets_http.cc']
 UNITS = {'dynbuf': dict(src=STREAM, mode='inl', roots=['_ZN8Pistache16DynamicStreamBufC2Emm', '_ZN8Pistache16DynamicStreamBuf8overflowEi', '_ZN8Pistache16DynamicStreamBuf5clearEv'])}
+HTTP = '/repo/src/common/http.cc'
+POW = '_ZN8Pistache4Http14ResponseWriter9putOnWireEPKcm'
+UNITS['pow'] = dict(src=HTTP, mode='sel', roots=[POW], stubs_re=r'^_ZN8Pistache3Tcp9Transport10asyncWriteI|^_ZN8Pistache5Async7PromiseIlE4thenI|^_ZN8Pistache5Async7PromiseIlE8rejectedI|^_ZNK8Pistache16DynamicStreamBuf6bufferEv|^_ZN8Pistache4Http7Timeout6disarmEv|^_ZNK8Pistache4Http14ResponseWriter4peerEv|^_ZN8Pistache5Async7PromiseIlED[02]Ev|^_ZN8Pistache9RawBufferD2Ev|^_ZN8Pistache5ErrorC[12]E|^_ZN8Pistache4Http6CookieC2ERKS1_|^_ZN8Pistache4Http6CookieD2Ev')
 HARNESSES = []
+def pow_inst(nh, j0, j1, tiers, witness=False):
+    return dict(name='put_on_wire_h%d_j%d%d' % (nh, j0, j1), units=['pow'], file='c05_wire.c', defs={'NHDRFIX': nh, 'JAR0': j0, 'JAR1': j1, 'VP_DISPATCH_ru8p_u8p': None, 'VP_DISPATCH_CUSTOM_ru8p_u8p': None, 'VP_DISPATCH_rvoid_u8p_u8p': None},
+        unwind=5, hunwind=50, timeout=1500, fs=64, tiers=tiers, witness=witness,
+        bound='%d typed headers, cookie jar with %s; any version/status code, body of 0..3 bytes, opaque pieces of arbitrary fixed lengths, EVERY maximum response size 0..200' % (nh, 'no cookie' if not j0 else ('one name with %d value(s)' % j0 if not j1 else 'two names with %d and %d value(s)' % (j0, j1))),
+        desc='(b) putOnWire: exact token sequence (status line, each header once, each cookie once, Content-Length == body length, blank line, body) when it fits, size reported == bytes emitted; otherwise rejected promise and nothing handed to the transport')
+for nh_ in (0, 1, 2):
+    for (j0_, j1_) in ((0, 0), (1, 0), (2, 0), (1, 1), (2, 1), (1, 2), (2, 2)):
+        q_ = (nh_, j0_, j1_) in ((0, 0, 0), (1, 1, 0), (2, 2, 1), (1, 1, 2))
+        HARNESSES.append(pow_inst(nh_, j0_, j1_, ('quick', 'thorough') if q_ else ('thorough',), witness=(nh_, j0_, j1_) in ((1, 1, 0), (2, 2, 1))))
 for s0 in (0, 1, 3):
     for mx in sorted({s0, s0 + 1, 5, 6, 8}):
         if mx < s0: continue
@@ -12,7 +24,8 @@ for s0 in (0, 1, 3):
                 tiers=('quick', 'thorough') if quick else ('thorough',), witness=(l1 == 3 and mx in (5, 8)),
                 bound='initial size %d, maximum %d, writes of %d then %d bytes (all contents)' % (s0, mx, l1, l2),
                 desc='(a) DynamicStreamBuf: accepted == min(len, max - used), contents exact across growth boundaries, never beyond max, clear() rewinds'))
-ASSUMPTIONS = ['writes are byte-wise puts: store into the put area or call the real overflow() when it is full (what sputc does; xsputn bulk copies are libstdc++)',
+ASSUMPTIONS = ['put_on_wire: std::ostream objects are ghost token logs over one byte counter with a symbolic capacity (an insertion that does not fit is cut and fails THAT ostream); Header::write, Cookie output, version/status texts and the Content-Length digits are opaque tokens of arbitrary fixed lengths; Transport::asyncWrite, Promise::then/rejected, peer(), Timeout::disarm, DynamicStreamBuf::buffer are recording stubs; the real CookieJar::iterator runs on ghost unordered_maps',
+               'writes are byte-wise puts: store into the put area or call the real overflow() when it is full (what sputc does; xsputn bulk copies are libstdc++)',
                'heap blocks are fixed-size (16 bytes, requests asserted to fit): sizes are checked functionally (storage size, put pointer, contents), not by CBMC bounds checks',
                'std::vector<char> growth (resize/_M_default_append) is the real inlined libstdc++ code over exact-size malloc blocks; allocation failure out of scope']
-OUTSIDE = ['numeric/locale formatting of std::ostream (num_put)', 'the client request writer (std::stringstream)', 'ResponseWriter::putOnWire / ResponseStream sequencing (planned, sel mode)']
+OUTSIDE = ['numeric/locale formatting of std::ostream (num_put)', 'the client request writer (std::stringstream)', 'ResponseStream (chunked) sequencing; serveFile']
